@@ -1074,3 +1074,7 @@ mod tests {
         assert_eq!(exp, got);
     }
 }
+
+#[cfg(any(kani, rescrv_blue_verif))]
+#[path = "/verif/hk/sst/block.rs"]
+mod verif_harness;
